@@ -3,7 +3,7 @@
    Model/Cable.v (assembly of the cable system of a cell; schemes).  The conductance
    formulas G*.X are regenerated from /repo on every run. *)
 From Coq Require Import Reals List Lia Lra.
-From JV Require Import Prim TreeSolve TreeSolveFacts Cable GCellUtils CableFacts HinesArr HinesCheck HinesArrFacts HinesIdx HinesTreeFacts HinesIdxFacts HinesArrPositive AsmStruct AssembleM AssembleTotal AsmIdx AsmIdxFacts.
+From JV Require Import Prim TreeSolve TreeSolveFacts Cable GCellUtils CableFacts HinesArr HinesCheck HinesArrFacts HinesIdx HinesTreeFacts HinesIdxFacts HinesArrPositive AsmStruct AssembleM AssembleTotal AsmIdx AsmIdxFacts AssembleGraph AsmGraphFacts.
 Import ListNotations.
 Local Open Scope R_scope.
 
@@ -207,6 +207,44 @@ Theorem C01_implicit_step_of_every_cell_total : forall (ps ns : list nat) (es : 
   (exists y, sat ly tp s0 out y) /\
   (forall x y, sat ly tp s0 x y -> forall b k, (b < length ps)%nat -> (k < pl ly b)%nat -> x (cs ly b + k)%nat = out (cs ly b + k)%nat).
 Proof. exact cell_step_total. Qed.
+
+(* ... and WHICH system that is: the backward-Euler equations of the conductance graph of the cell.  With
+   z = out on the slots of the compartments and y on the branch points (graph_eq, Proofs/AssembleGraph.v):
+     compartment c :  z_c (1 + dt vt_c) + dt * sum_{e into c, type <= 2} g_e (z_c - z_{source e}) = v_c + dt ct_c
+     branch point j:  sum_{e into j, type 3 or 4} g_e (z_{source e} - y_j) = 0
+     padded slots  :  0
+   For EVERY cell, all positive conductances, non-negative membrane terms, all voltages and every dt > 0 the output
+   of the implicit step satisfies these equations and every solution of them coincides with it.  (The edge table is
+   the code's comp_edges, compared exactly; the conductances g_e are what compute_axial_conductances puts on the
+   edges - Layer G identifies them with the physical coupling conductances; vt and ct are the linearised membrane
+   terms divided by the capacitance.) *)
+Theorem C01_every_cell_step_solves_the_cable_graph_equations :
+  forall (ps ns : list nat) (es : list (edge R)) (v vt ct : nat -> R) (dt : R),
+  (1 <= length ps)%nat -> (forall b, (1 <= b)%nat -> (b < length ps)%nat -> (nth b ps 0 < b)%nat) ->
+  (forall b, (b < length ps)%nat -> (1 <= nth b ns 0)%nat) ->
+  map strip es = triples_of ps ns ->
+  0 < dt -> (forall e, In e es -> 0 < e_g R e) -> (forall i, (i < total ps ns)%nat -> 0 <= vt i) ->
+  let ly := layout_of ps ns in let tp := topo_of ps in let ops := ops_of_tree ps ns in
+  let mask := nthD (mask_of ps ns) in let n := total ps ns in
+  let s0 := assemble R Rplus Rminus Rmult 0 1 mask n es v vt ct dt (group_of ps) (child_inds_of ps) (par_inds_of ps) in
+  let out := sv (run R Rplus Rminus Rmult Rdiv 0 1 ly ops s0) in
+  (exists y, graph_eq ly tp mask n es v vt ct dt out y) /\
+  (forall x y, graph_eq ly tp mask n es v vt ct dt x y ->
+     forall b k, (b < length ps)%nat -> (k < pl ly b)%nat -> x (cs ly b + k)%nat = out (cs ly b + k)%nat).
+Proof. exact cell_step_solves_the_graph_equations. Qed.
+
+(* the same identification for any structure that passes the (decidable) consistency conditions, e.g. a network:
+   the system represented by the assembled arrays IS the graph system *)
+Theorem C01_assembled_system_is_the_graph_system :
+  forall (ly : layout) (tp : topo), wf ly tp ->
+  forall (mask : nat -> nat) (ncomp : nat) (es : list (edge R)) (v vt ct : nat -> R) (dt : R) (group child_inds par_inds : list nat),
+  graph_struct ly tp mask ncomp es group child_inds par_inds ->
+  graph_struct_bp ly mask ncomp es group child_inds par_inds ->
+  (forall c, (c < ncomp)%nat -> exists b r, (b < nb tp)%nat /\ (r < nc ly b)%nat /\ mask c = (cs ly b + r)%nat) ->
+  (forall b r, (b < nb tp)%nat -> (r < nc ly b)%nat -> exists c, (c < ncomp)%nat /\ mask c = (cs ly b + r)%nat) ->
+  forall x y, sat ly tp (assemble R Rplus Rminus Rmult 0 1 mask ncomp es v vt ct dt group child_inds par_inds) x y
+              <-> graph_eq ly tp mask ncomp es v vt ct dt x y.
+Proof. exact sat_iff_graph. Qed.
 
 (* non-vacuity of its hypotheses: the edge table of the example cell with unit conductances *)
 Example C01_cell_edges_example :
